@@ -263,6 +263,54 @@ def _in_trait_impl(lines):
             return False
     return False
 
+def rule_R9(body, fired):
+    """R9 — let chains (`if let PAT = E && COND { B }`, no else branch) are nested: `if let PAT = E { if COND { B } }`.  Verus does not support let chains; the two forms
+    are the same program when there is no else branch (anything else is left untouched and Verus reports the unsupported construct: undecided)."""
+    from rx import lex as _lex, match_close as _mc
+    while True:
+        toks = _lex(body)
+        code = [k for k, t in enumerate(toks) if t.kind not in ('ws', 'comment', 'doc')]
+        done = True
+        for ci, k in enumerate(code):
+            t = toks[k]
+            if not (t.kind == 'id' and t.text == 'if' and ci + 1 < len(code) and toks[code[ci + 1]].kind == 'id' and toks[code[ci + 1]].text == 'let'):
+                continue
+            # scan the header to the block's `{` at depth 0, remembering the first top-level `&&`
+            depth = 0; amp = None; brace = None
+            cj = ci + 2
+            while cj < len(code):
+                tt = toks[code[cj]]
+                if tt.kind == 'p':
+                    if tt.text in '([':
+                        depth += 1
+                    elif tt.text in ')]':
+                        depth -= 1
+                    elif tt.text == '{' and depth == 0:
+                        brace = code[cj]; break
+                    elif tt.text == '&' and depth == 0 and amp is None and cj + 1 < len(code) and toks[code[cj + 1]].kind == 'p' and toks[code[cj + 1]].text == '&' and toks[code[cj + 1]].start == tt.end:
+                        amp = cj
+                    elif tt.text == '&&' and depth == 0 and amp is None:
+                        amp = cj
+                cj += 1
+            if brace is None or amp is None:
+                continue
+            close = _mc(toks, brace)
+            # no else branch
+            nx = [q for q in code if q > close]
+            if nx and toks[nx[0]].kind == 'id' and toks[nx[0]].text == 'else':
+                continue
+            amp_tok = toks[code[amp]]
+            amp_end = amp_tok.end if amp_tok.text == '&&' else toks[code[amp + 1]].end
+            head = body[t.start:amp_tok.start].rstrip()
+            cond = body[amp_end:toks[brace].start].strip()
+            blk = body[toks[brace].start:toks[close].end]
+            body = body[:t.start] + head + ' { if ' + cond + ' ' + blk + ' }' + body[toks[close].end:]
+            fired.add('R9')
+            done = False
+            break
+        if done:
+            return body
+
 def _emit_extracted(u, target, args, block, subst, emit):
     relpath, fname = target.split('::', 1)
     ft = extract_fn(REPO, relpath, fname, impl=args.get('impl'), nth=int(args['nth']) if 'nth' in args else None)
@@ -273,6 +321,7 @@ def _emit_extracted(u, target, args, block, subst, emit):
     fired = set()
     sig = rule_R1_R3(ft.sig, fired)
     body = rule_R1_R3(ft.body, fired)
+    body = rule_R9(body, fired)
     body = r4.apply(body, fired)
     # stated substitutions (`subst="old=>new|old2=>new2"`): literal replacements on the extracted text, recorded in the rule list of the function
     for pair in [x for x in args.get('subst', '').split('|') if '=>' in x]:
